@@ -67,6 +67,10 @@ def run(ctx, rep):
             rep.fail("R8.1", "%s:found" % tag, "%s not found" % name)
             continue
         rep.fn(name)
+        from mirq import inline_calls
+        pfx = PREFIX.get(tag)
+        if pfx:
+            b = inline_calls(b, lambda d, pfx=pfx: d.startswith(pfx) and "{closure" not in d, depth=3)          # private helpers of the adaptor
         recvs = [(bb, t) for bb, t in b.calls() if RECV.search(callee(t)[0] or "")]
         rep.check("R8.1", "%s:receive-site" % tag, len(recvs) == 1, "%s: expected exactly one datagram receive call (found %s)" % (tag, [callee(t)[0] for _b, t in recvs]), b.loc(), nontrivial=False)
         for (bb, t) in recvs:
